@@ -74,6 +74,15 @@ class Engine:
 
     def step(self, op) -> bool:
         """Returns False when the history must stop (divergence found)."""
+        if op[0] == "burst":
+            n_before = len(self.executed)
+            ok = self.step_burst(op[1])
+            # keep the burst as one replayable unit
+            done = self.executed[n_before:]
+            del self.executed[n_before:]
+            if done:
+                self.executed.append(["burst", done])
+            return ok
         k = len(self.executed)
         if self.strict and self.model is not None and is_open(self.model, op):
             self.count("skipped_open_ops")
@@ -180,6 +189,103 @@ class Engine:
         return n0 == len(self.findings)
 
 
+def _burst(self, ops) -> bool:
+    """
+    Execute `ops` back to back WITHOUT looking at anything in between (no snapshot, no aliasing classification,
+    no accessor is read): lazily initialised state must not depend on having been observed.  All monitors are
+    evaluated once, after the last op.
+    """
+    k = len(self.executed)
+    self.pool.blind = True
+    pre = self.last_snap
+    pairs = []
+    try:
+        for op in ops:
+            if self.strict and self.model is not None and is_open(self.model, op):
+                continue
+            real = driver.execute(self.pool, op)
+            exp = self.model.apply(op) if self.model is not None else None
+            if real is driver.SKIP or (exp is not None and exp.kind == "skip"):
+                if exp is not None and not (real is driver.SKIP and exp.kind == "skip"):
+                    self.findings.append(Finding("harness:name_divergence", f"burst op {op}: real={real} model={exp}", k))
+                    return False
+                continue
+            self.executed.append(op)
+            pairs.append((op, real, exp))
+    finally:
+        self.pool.blind = False
+    if not pairs:
+        return True
+    driver.sync_auto_laws(self.pool)
+    if self.model is not None:
+        # an auto-created law set that was detached inside the burst is unreachable and never got a pool name
+        for n in [n for n, w in self.model.W.items() if n.startswith("W_") and n not in self.pool.objs and w["applies"] is None]:
+            del self.model.W[n]
+    kinds = "+".join(op[0] for op, _, _ in pairs)
+    tag = f"burst:{kinds}"
+    self.count("bursts")
+    self.count("op:" + tag)
+    post = observe.snapshot(self.pool)
+    self.last_snap = post
+    self.states.add(hash(frozenset(post.items())))
+
+    def viol(clause, what):
+        self.findings.append(Finding(f"{clause}:{tag}", f"unobserved burst #{k} {[p[0] for p in pairs]} -> "
+                                     f"{[p[1] for p in pairs]}: {what}", k))
+
+    n0 = len(self.findings)
+    any_open = any(e is not None and e.kind == "open" for _, _, e in pairs)
+    if "C01" in self.checks:
+        self.evals += 1
+        for clause, what in observe.assoc_witnesses(self.pool)[:1]:
+            viol(clause, what)
+    if "C02" in self.checks and n0 == len(self.findings):
+        self.evals += 1
+        for clause, what in observe.membership_witnesses(self.pool)[:1]:
+            viol(clause, what)
+        if n0 == len(self.findings) and not any_open:
+            ms = self.model.snapshot()
+            for name, val in post.items():
+                if val[0] == "U" and name in ms and val[3] != ms[name][3]:
+                    viol("member_order", f"{name}.vertices = {list(val[3])}, model gives {list(ms[name][3])}")
+                    break
+                if val[0] in ("U", "V") and name in ms and val[2] != ms[name][2]:
+                    viol("universes_list", f"{name}.universes = {list(val[2])}, model has {list(ms[name][2])}")
+                    break
+    if "C19" in self.checks and n0 == len(self.findings):
+        self.evals += 1
+        for clause, what in observe.laws_witnesses(self.pool)[:1]:
+            viol(clause, what)
+        for op, real, _ in pairs:
+            if op[0] in ("set_laws", "set_applies", "mku") and real[0] == "exc" and n0 == len(self.findings):
+                viol(f"assignment_raised:{real[1]}", f"{op} raised")
+        if n0 == len(self.findings) and not any_open:
+            ms = self.model.snapshot()
+            bad = [n for n, v in post.items() if v[0] == "W" and ms.get(n) != v] + [
+                n for n, v in post.items() if v[0] == "U" and n in ms and ms[n][4] != v[4]]
+            if bad:
+                viol("assignment_no_effect_or_frame", "after the burst the bindings differ from the model: " + _diff(ms, post))
+    if "C03" in self.checks and n0 == len(self.findings):
+        self.evals += 1
+        if any_open:
+            return False
+        for op, real, exp in pairs:
+            if exp.kind == "raise" and real[0] != "exc":
+                viol("should_raise", f"{op} returned normally")
+                break
+            if exp.kind != "raise" and real[0] == "exc":
+                viol(f"unexpected_exception:{real[1]}", f"{op} is inside its documented domain")
+                break
+        if n0 == len(self.findings):
+            ms = self.model.snapshot()
+            if post != ms:
+                viol("effect", "observable graph differs from the reference model: " + _diff(ms, post))
+    return n0 == len(self.findings)
+
+
+Engine.step_burst = _burst
+
+
 def _diff(a, b):
     out = []
     for n in sorted(set(a) | set(b)):
@@ -206,6 +312,12 @@ def generate(rng, profile, checks, nops, strict=False, counters=None, weights=No
     if profile in ("C02", "C19", "C03") and rng.random() < 0.8:
         eng.step(["mku", g.fresh("U"), [], None])
     for _ in range(nops):
+        if rng.random() < 0.08:
+            # an unobserved burst: a constructor immediately followed by ops on the new object, chosen blindly
+            burst = g.blind_burst(eng.pool)
+            if burst and not eng.step(["burst", burst]):
+                break
+            continue
         op = g.next_op(eng.pool)
         if op is None:
             break
